@@ -17,6 +17,7 @@ Rules (symbolic per-path reading of initialize/update/timeout and of the Checkup
       cell evaluation applied to CheckupEqualTo<double> and CheckupGreaterThan<double>, the types CheckupRate is instantiated with
 Not decided: numeric rate values of concrete jittered histories beyond the formula."""
 import sympy as sp
+from .. import alg
 from .. import sym
 from ..tree import sx, walk, pp, short_fn
 from .C18 import hook, STATUS, MESSAGE, VALUE
@@ -92,6 +93,18 @@ def ctor_state(fx, R):
     return c
 
 
+def _ns_domain(s_):
+    """witness ranges (in hundredths) for the nanosecond quantities of the monitor: stamps and sums far above the window length"""
+    n = s_.name
+    if 'windowSize' in n:
+        return (400, 6400)
+    if 'periodsSum_' in n:
+        return (5 * 10 ** 10, 9 * 10 ** 10)
+    if 'duration' in n.lower() or 'front' in n or 'fn:' in n:
+        return (10 ** 9, 4 * 10 ** 9)
+    return None
+
+
 def check_update(fx, R, fu, ft):
     rd = sym.Reader(fx)
     paths = rd.run(fu)
@@ -143,8 +156,8 @@ def check_update(fx, R, fu, ft):
                 [o[0] for o in q.ops], S1), 'sum += period - oldest ; pop once', fx.rel(fu['loc']), 'E-STATE')
             if rate_written:
                 res = sp.simplify(rate1 * S1 - 10 ** 9 * W)
-                R.check(res == 0, 'M2', inst + ':formula', 'stored rate %s: rate*sum - 1e9*W = %s (should vanish: W periods over their total time)' % (rate1, res),
-                        'rate * sum(last W periods) = 1e9 * W', fx.rel(fu['loc']), 'E-ALG')
+                alg.check_zero(R, res, 'M2', inst + ':formula', 'stored rate %s: rate*sum - 1e9*W = %s (should vanish: W periods over their total time)' % (rate1, res),
+                               'rate * sum(last W periods) = 1e9 * W', fx.rel(fu['loc']), domain=_ns_domain)
             else:
                 desc = ' && '.join(('' if c[2] else '!') + '(' + c[0] + ')' for c in st.cond)
                 if other_writers:
